@@ -8,14 +8,6 @@ From FpyV Require Import Lang.Transforms.SimpDefs Lang.Transforms.SimpBaseProofs
 Import ListNotations.
 Open Scope Z_scope.
 
-(* the program after simplify(f): P plus the rewritten function under the name f' *)
-Definition add_fn (P : program) (f' : ident) (fn' : func) : program := P ++ [(f', fn')].
-
-(* "T preserves what f returns": the statement form of every C07 theorem *)
-Definition preserves (N : numops) (P : program) (f : ident) (P' : program) (f' : ident) : Prop :=
-  forall fuel args c v, run N P fuel f args c = ROk v ->
-    exists fuel' v', run N P' fuel' f' args c = ROk v' /\ cval_eqb v v' = true.
-
 Lemma lookup_add_old : forall P f' fn' g fn, lookup_fn P g = Some fn -> lookup_fn (add_fn P f' fn') g = Some fn.
 Proof.
   unfold add_fn. induction P as [|[h hn] P IH]; intros f' fn' g fn H; cbn in *; [discriminate|].
@@ -29,19 +21,32 @@ Proof.
   - destruct (String.eqb f' h); [discriminate|]. auto.
 Qed.
 
+(* the active context is the statically known one, if any *)
+Definition ctx_ok (oc : option ctx) (C : ctx) : Prop := match oc with Some c => C = c | None => True end.
+
 Section Lift.
 Variable N : numops.
 Variable P : program.
 
-(* body' simulates body on returning executions, from the same initial state *)
-Definition body_sim (b b' : block) : Prop :=
-  forall n s mu C v mu', exec_block N P n s mu C b = ROk (OReturn v, mu') ->
+(* body' simulates body on returning executions, from the same initial state,
+   under every context compatible with the declared one *)
+Definition body_sim (oc : option ctx) (b b' : block) : Prop :=
+  forall n s mu C v mu', ctx_ok oc C -> exec_block N P n s mu C b = ROk (OReturn v, mu') ->
     exists n', exec_block N P n' s mu C b' = ROk (OReturn v, mu').
+
+Lemma body_sim_refl : forall oc b, body_sim oc b b.
+Proof. intros oc b n s mu C v mu' _ H. exists n. exact H. Qed.
+
+Lemma body_sim_trans : forall oc b1 b2 b3, body_sim oc b1 b2 -> body_sim oc b2 b3 -> body_sim oc b1 b3.
+Proof.
+  intros oc b1 b2 b3 H12 H23 n s mu C v mu' Hc H. destruct (H12 _ _ _ _ _ _ Hc H) as (n2 & H2).
+  exact (H23 _ _ _ _ _ _ Hc H2).
+Qed.
 
 Lemma run_lift : forall f f' fn fn',
   lookup_fn P f = Some fn -> lookup_fn P f' = None ->
   f_params fn' = f_params fn -> f_ctx fn' = f_ctx fn ->
-  body_sim (f_body fn) (f_body fn') ->
+  body_sim (f_ctx fn) (f_body fn) (f_body fn') ->
   preserves N P f (add_fn P f' fn') f'.
 Proof.
   intros f f' fn fn' Hf Hf' Hp Hc Hsim fuel args c v H.
@@ -52,7 +57,9 @@ Proof.
   destruct (bind_params (f_params fn) vs []) as [s|] eqn:Bp; cbn [lift rbind] in Ecall; [|discriminate].
   destruct (rbind_ok _ _ _ _ _ Ecall) as ([o m2] & Eb & Hr). clear Ecall.
   destruct o as [s'|w']; [discriminate|]. inversion Hr; subst w' m2. clear Hr.
-  destruct (Hsim _ _ _ _ _ _ Eb) as (n' & Eb').
+  assert (Hcok : ctx_ok (f_ctx fn) (match f_ctx fn with Some c0 => c0 | None => match c with Some c0 => c0 | None => FP64 end end))
+    by (destruct (f_ctx fn); cbn; auto).
+  destruct (Hsim _ _ _ _ _ _ Hcok Eb) as (n' & Eb').
   pose proof (exec_block_ext N P (add_fn P f' fn') (lookup_add_old P f' fn') _ _ _ _ _ _ Eb') as Eb''.
   destruct (extract (S n) mu1 w) as [cv|] eqn:Ex; [|discriminate]. inversion Hex; subst cv. clear Hex.
   exists (S (Nat.max n n')), v. split; [|apply cval_eqb_refl].
